@@ -30,6 +30,16 @@ theorem ignored_stays_ignored (s : IgnoreSet) (l l₂ : LintM) (toks toks₂ : L
   unfold isIgnored ignoreLint at *
   rw [contains_insertCtx, h]; rfl
 
+/-- non-vacuity of ignored_stays_ignored: `x y`, lint `a` on `x` ignored, then lint `b` on `y`
+(another context: the set grows to two entries); `a` is still ignored -/
+example :
+    let toks : List Tok := [⟨[0,0],[120],0,1⟩, ⟨[4,1],[32],1,2⟩, ⟨[0,0],[121],2,3⟩]
+    let a : LintM := ⟨0, 0, 1, 0, [], [1], 63⟩
+    let b : LintM := ⟨1, 2, 3, 0, [], [2], 63⟩
+    let s := ignoreLint [] a toks
+    isIgnored s a toks = true ∧ isIgnored s b toks = false ∧
+    isIgnored (ignoreLint s b toks) a toks = true ∧ (ignoreLint s b toks).length = 2 := by decide
+
 /-- Only that lint: `remove_ignored` returns a sub-list (order preserved) which keeps every lint
 whose context differs from every ignored context. -/
 theorem different_context_kept (s : IgnoreSet) (lints : List LintM) (toks : List Tok) :
@@ -41,6 +51,16 @@ theorem different_context_kept (s : IgnoreSet) (lints : List LintM) (toks : List
   refine List.mem_filter.mpr ⟨hl, ?_⟩
   have : ¬ contextOf l toks ∈ s := fun hm => hne _ hm rfl
   simp [isIgnored, this]
+
+/-- non-vacuity of different_context_kept: a non-empty set, a lint whose context differs from every
+stored one (it differs in the message only) and is kept, next to one that is removed -/
+example :
+    let toks : List Tok := [⟨[0,0],[120],0,1⟩, ⟨[4,1],[32],1,2⟩, ⟨[0,0],[120],2,3⟩]
+    let a : LintM := ⟨0, 0, 1, 0, [], [1], 63⟩
+    let b : LintM := ⟨1, 0, 1, 0, [], [2], 63⟩
+    let s := ignoreLint [] a toks
+    s ≠ [] ∧ (∀ c ∈ s, contextOf b toks ≠ c) ∧ b ∈ removeIgnored s [a, b] toks ∧
+    a ∉ removeIgnored s [a, b] toks := by decide
 
 /-- Exactly: the lints that remain are those whose context is not in the set. -/
 theorem removeIgnored_exact (s : IgnoreSet) (lints : List LintM) (toks : List Tok) :
@@ -61,6 +81,62 @@ theorem context_eq_iff (l l' : LintM) (toks toks' : List Tok) :
   constructor
   · intro h; injection h with h1 h2 h3 h4 h5; exact ⟨h1, h2, h3, h4, h5⟩
   · rintro ⟨h1, h2, h3, h4, h5⟩; simp [h1, h2, h3, h4, h5]
+
+/-- Clause 2 in the property's own words, for the SAME document: a lint that was reported and
+differs from the ignored lint `l` in kind, suggestions, message, priority or in a token of its
+windows is still reported after `l` is ignored. -/
+theorem differing_lint_still_reported (s : IgnoreSet) (l l' : LintM) (toks : List Tok)
+    (lints : List LintM) (hm : l' ∈ removeIgnored s lints toks)
+    (hd : l'.kind ≠ l.kind ∨ l'.suggestions ≠ l.suggestions ∨ l'.message ≠ l.message ∨
+      l'.priority ≠ l.priority ∨
+      prequel toks l' ++ problem toks l' ++ sequel toks l' ≠
+        prequel toks l ++ problem toks l ++ sequel toks l) :
+    l' ∈ removeIgnored (ignoreLint s l toks) lints toks := by
+  have hne : contextOf l' toks ≠ contextOf l toks := by
+    intro h
+    obtain ⟨h1, h2, h3, h4, h5⟩ := (context_eq_iff l l' toks toks).mp h
+    rcases hd with hd | hd | hd | hd | hd
+    · exact hd h1
+    · exact hd h2
+    · exact hd h3
+    · exact hd h4
+    · exact hd h5
+  rw [removeIgnored_exact] at hm ⊢
+  obtain ⟨hl, hc⟩ := List.mem_filter.mp hm
+  refine List.mem_filter.mpr ⟨hl, ?_⟩
+  have hc' : contextOf l' toks ∉ s := by simpa using hc
+  have : contextOf l' toks ∉ ignoreLint s l toks := by
+    unfold ignoreLint
+    rw [mem_insertCtx]
+    rintro (h | h)
+    · exact hc' h
+    · exact hne h
+  simpa using this
+
+/-- non-vacuity of differing_lint_still_reported: a non-empty set already hides `c`; `b` (other
+message) and `d` (other token after it) are reported, and stay reported when `a` is ignored -/
+example :
+    let toks : List Tok := [⟨[0,0],[120],0,1⟩, ⟨[4,1],[32],1,2⟩, ⟨[0,0],[120],2,3⟩, ⟨[1,4],[46],3,4⟩]
+    let a : LintM := ⟨0, 0, 1, 0, [], [1], 63⟩
+    let b : LintM := ⟨1, 0, 1, 0, [], [2], 63⟩
+    let c : LintM := ⟨2, 0, 1, 5, [], [3], 63⟩
+    let d : LintM := ⟨3, 2, 3, 0, [], [1], 63⟩
+    let s := ignoreLint [] c toks
+    removeIgnored s [a, b, c, d] toks = [a, b, d] ∧ b.message ≠ a.message ∧
+    prequel toks d ++ problem toks d ++ sequel toks d ≠ prequel toks a ++ problem toks a ++ sequel toks a ∧
+    removeIgnored (ignoreLint s a toks) [a, b, c, d] toks = [b, d] := by decide
+
+/-- "That lint and only that lint", as one equation: ignoring `l` removes from the result exactly
+the lints with `l`'s context — same order, nothing added, nothing else removed. -/
+theorem ignore_removes_exactly (s : IgnoreSet) (l : LintM) (toks : List Tok) (lints : List LintM) :
+    removeIgnored (ignoreLint s l toks) lints toks
+      = (removeIgnored s lints toks).filter (fun l' => decide (contextOf l' toks ≠ contextOf l toks)) := by
+  rw [removeIgnored_exact, removeIgnored_exact, List.filter_filter]
+  apply List.filter_congr
+  intro x _
+  unfold ignoreLint
+  by_cases h1 : contextOf x toks = contextOf l toks <;> by_cases h2 : contextOf x toks ∈ s <;>
+    simp [mem_insertCtx, h1, h2]
 
 /-- The ignore list survives export/import: the re-imported list hides exactly the same lints. -/
 theorem export_import_id (s : IgnoreSet) (lints : List LintM) (toks : List Tok) :
@@ -104,6 +180,23 @@ theorem stable_under_edit_partial (s : IgnoreSet) (l l' : LintM) (toks toks' : L
   have : contextOf l' toks' = contextOf l toks :=
     (context_eq_iff l l' toks toks').mpr ⟨hk, hs, hm, hp, by rw [h1, h2, h3]⟩
   exact ⟨this, by unfold isIgnored; rw [this]⟩
+
+/-- non-vacuity of stable_under_edit_partial: `a problm in` → `Oh. a problm in.` (text before AND
+after; every offset moves by 4, the lint gets another id); all seven hypotheses hold together and
+the theorem yields that the moved lint is still ignored -/
+example :
+    let toks : List Tok := [⟨[0,1],[97],0,1⟩, ⟨[4,1],[32],1,2⟩, ⟨[0,0],[112,114,111,98,108,109],2,8⟩,
+      ⟨[4,1],[32],8,9⟩, ⟨[0,2],[105,110],9,11⟩]
+    let toks' : List Tok := [⟨[0,3],[79,104],0,2⟩, ⟨[1,4],[46],2,3⟩, ⟨[4,1],[32],3,4⟩] ++
+      toks.map (Tok.shift 4) ++ [⟨[1,4],[46],15,16⟩]
+    let l : LintM := ⟨0, 2, 8, 0, [], [63], 63⟩
+    let l' : LintM := ⟨3, 6, 12, 0, [], [63], 63⟩
+    toks' ≠ toks ∧ l' ≠ l ∧ isIgnored (ignoreLint [] l toks) l' toks' = true := by
+  intro toks toks' l l'
+  refine ⟨by decide, by decide, ?_⟩
+  rw [(stable_under_edit_partial (ignoreLint [] l toks) l l' toks toks' rfl rfl rfl rfl
+    (by decide) (by decide) (by decide)).2]
+  decide
 
 /-- Prepending text: new tokens before position `d`, every old token moved right by `d` with its
 payload as it was. A lint at least two characters into the old text keeps its context.
@@ -162,6 +255,21 @@ theorem stable_under_append_partial (n : Nat) (added toks : List Tok) (l : LintM
     unfold sequel; rw [fatsIn_append, hnone _ _ (by omega)]; simp
   rw [e1, e2, e3]
 
+/-- non-vacuity of stable_under_append_partial: `a problm in` + ` it.` appended at 11; the three
+hypotheses hold together (the context has four tokens) -/
+example :
+    let toks : List Tok := [⟨[0,1],[97],0,1⟩, ⟨[4,1],[32],1,2⟩, ⟨[0,0],[112,114,111,98,108,109],2,8⟩,
+      ⟨[4,1],[32],8,9⟩, ⟨[0,2],[105,110],9,11⟩]
+    let added : List Tok := [⟨[4,1],[32],11,12⟩, ⟨[0,3],[105,116],12,14⟩, ⟨[1,4],[46],14,15⟩]
+    let l : LintM := ⟨0, 2, 8, 0, [], [63], 63⟩
+    (∀ t ∈ added, 11 ≤ t.start) ∧ l.start + 4 ≤ 11 ∧ l.stop ≤ 11 ∧
+    contextOf l (toks ++ added) = contextOf l toks ∧ (contextOf l toks).tokens.length = 4 := by
+  intro toks added l
+  have h1 : ∀ t ∈ added, 11 ≤ t.start := by decide
+  have h2 : l.start + 4 ≤ 11 := by decide
+  have h3 : l.stop ≤ 11 := by decide
+  exact ⟨h1, h2, h3, stable_under_append_partial 11 added toks l h1 h2 h3, by decide⟩
+
 /-- The FULL stability clause — an ignored lint stays ignored whenever the flagged text and the
 tokens of its windows are untouched — is **false of the code**: a quotation mark's `twin_loc` is
 an index into the whole document's token vector and is part of the hashed context. Witness (real
@@ -217,6 +325,25 @@ example :
     contextOf l t1 = contextOf l t2 ∧ fatsIn t1 l.stop (l.stop + 2) ≠ fatsIn t2 l.stop (l.stop + 2) := by
   decide
 
+/-- The same inside ONE document, as a kernel-checked negation of clause 2 read literally ("every
+lint that differs in … surrounding words is still reported", the surrounding words being the tokens
+within two characters AFTER the lint): `a problm in a problm of`, ignore the first spelling lint —
+the second, followed by another word, is hidden with it (DESIGN §7 row 30, second half). -/
+theorem following_word_not_in_context :
+    ¬ (∀ (toks : List Tok) (l l' : LintM) (lints : List LintM), l' ∈ lints →
+        fatsIn toks l'.stop (l'.stop + 2) ≠ fatsIn toks l.stop (l.stop + 2) →
+        l' ∈ removeIgnored (ignoreLint [] l toks) lints toks) := by
+  intro h
+  let toks : List Tok := [⟨[0,1],[97],0,1⟩, ⟨[4,1],[32],1,2⟩, ⟨[0,0],[112,114,111,98,108,109],2,8⟩,
+    ⟨[4,1],[32],8,9⟩, ⟨[0,2],[105,110],9,11⟩, ⟨[4,1],[32],11,12⟩, ⟨[0,1],[97],12,13⟩,
+    ⟨[4,1],[32],13,14⟩, ⟨[0,0],[112,114,111,98,108,109],14,20⟩, ⟨[4,1],[32],20,21⟩,
+    ⟨[0,3],[111,102],21,23⟩]
+  let l : LintM := ⟨0, 2, 8, 0, [], [63], 63⟩
+  let l' : LintM := ⟨1, 14, 20, 0, [], [63], 63⟩
+  have := h toks l l' [l, l'] (by decide) (by decide)
+  revert this
+  decide
+
 /-- With no quotation mark in the windows, "untouched" is "same payload": the full clause holds.
 (Stated for the harness's encoding, where only quotes carry a document-wide index.) -/
 theorem stable_without_quotes (s : IgnoreSet) (toks toks' : List Tok) (l l' : LintM)
@@ -242,6 +369,24 @@ theorem stable_without_quotes (s : IgnoreSet) (toks toks' : List Tok) (l l' : Li
   have : contextOf l' toks' = contextOf l toks :=
     (context_eq_iff l l' toks toks').mpr ⟨hk, hs, hm, hp, hall⟩
   unfold isIgnored; rw [this]
+
+/-- non-vacuity of stable_without_quotes: all three hypotheses together on `a problm in` →
+`Oh. a problm in` (offsets move by 4), and the theorem's conclusion used -/
+example :
+    let toks : List Tok := [⟨[0,1],[97],0,1⟩, ⟨[4,1],[32],1,2⟩, ⟨[0,0],[112,114,111,98,108,109],2,8⟩,
+      ⟨[4,1],[32],8,9⟩, ⟨[0,2],[105,110],9,11⟩]
+    let toks' : List Tok := [⟨[0,3],[79,104],0,2⟩, ⟨[1,4],[46],2,3⟩, ⟨[4,1],[32],3,4⟩] ++
+      toks.map (Tok.shift 4)
+    let l : LintM := ⟨0, 2, 8, 0, [], [63], 63⟩
+    Untouched toks toks' l (l.shift 4) ∧ NoQuote toks l ∧ NoQuote toks' (l.shift 4) ∧
+    isIgnored (ignoreLint [] l toks) (l.shift 4) toks' = true := by
+  intro toks toks' l
+  have hu : Untouched toks toks' l (l.shift 4) := by decide
+  have hq : NoQuote toks l := by decide
+  have hq' : NoQuote toks' (l.shift 4) := by decide
+  refine ⟨hu, hq, hq', ?_⟩
+  rw [stable_without_quotes (ignoreLint [] l toks) toks toks' l (l.shift 4) hu hq hq']
+  decide
 
 /-! ### Non-vacuity and witnesses (concrete, kernel-evaluated) -/
 
